@@ -494,6 +494,15 @@ func (ex *Exec) obligation(kind, label string, ob *Term, margin *Term, site ssa.
 	if ex.res.SampleQuery == "" && r == "unsat" {
 		ex.res.SampleQuery = label + ": " + neg.Short()
 	}
+	// cross-solver diffing: a deterministic sample of decided obligations is re-decided by z3 5.1.0
+	ex.xcount++
+	if ex.xsample > 0 && ex.xcount%ex.xsample == 0 && (r == "unsat" || r == "sat") {
+		other := CrossCheck("z3-new", []string{"-T:20"}, ex.sol.script([]*Term{neg}, nil), 25)
+		ex.xchecked++
+		if (other == "sat" || other == "unsat") && other != r {
+			ex.xdisagree = append(ex.xdisagree, label+" @ "+pos+": z3 4.8.12="+r+" z3 5.1.0="+other)
+		}
+	}
 	switch r {
 	case "unsat":
 		ex.res.Discharged++
